@@ -106,6 +106,7 @@ let run (path : String.t) (only : String.t) =
                 | Some TReqRep -> if pat <> "rr" then (corr := false; note "model table has another pattern for a probed topic")
                 | None -> (corr := false; note "probed topic missing from the model table"))
             | None -> (corr := false; note "probed topic never opened"))
+         | ["oversize"; "->"; res] -> if res <> "ok" then (prop := false; tag "c11"; tag "c08"; note ("a bound replier was harmed by another peer's request that is too large only once tagged: " ^ res))
          | ["iso"; "->"; res] -> if res <> "ok" then (prop := false; tag "c07"; tag "c01"; note ("distinct topic names share traffic: " ^ res))
          | ["alive"; "->"; res] -> alive := true; if res <> "ok" then (prop := false; note ("server no longer serves a fresh topic: " ^ res))
          | "harness_error" :: _ -> prop := false; note lines.(!i)
